@@ -2,11 +2,12 @@ import AlgoVerif.Model.C04Run
 /-!
 Line-protocol component for C04 (keys and values are `Int`, `eqVal` is `==`).
 
-Header: `comp=binary|binomial|fibonacci ori=min|max|half size=<n>` (`size` only for `binary`).
+Header: `comp=binary|binomial|fibonacci ori=min|max|half|minraw|min7|maxraw size=<n>` (`size` only for `binary`;
+`minraw` = `a-b`, `min7` = `7*(a-b)`, `maxraw` = `b-a`: comparators that are not normalised to -1/0/+1).
 Ops (every heap op names its register; `binary` has register 0 only):
 
     ins r k v | del r | peek r | clear r | size r | empty r | hask r k | hasv r v | dump r
-    merge d s            (mergeable heaps; afterwards register s holds a fresh heap)
+    merge d s            (mergeable heaps: heap[d].Merge(heap[s]); both registers stay in use)
     maxdeg lo hi         (fibonacci: break points of `maxDegree` on [lo, hi])
 -/
 namespace AlgoVerif.C04.Driver
@@ -18,6 +19,9 @@ def cmpOf (hdr : List String) : Int → Int → Int :=
   match headerGet hdr "ori" with
   | some "max" => cmpDesc
   | some "half" => cmpHalf
+  | some "minraw" => cmpSub
+  | some "min7" => cmpSub7
+  | some "maxraw" => cmpRevSub
   | _ => cmpAsc
 
 def showOut : Out Int Int → String
@@ -112,11 +116,11 @@ def runMergeable (I : Impl Int Int) (dump : I.σ → String) (fib : Bool) (ops :
     | ["merge", d, s] =>
       match parseNat? d, parseNat? s with
       | some d, some s =>
-        if d = s then out := out.push "bad-op"
+        if d = s then out := out.push "ok"   -- `hh != h` fails: nothing happens
         else
           while regs.size ≤ max d s do regs := regs.push I.init
           match I.merge (regs.getD d I.init) (regs.getD s I.init) with
-          | .ok h => regs := (regs.setIfInBounds d h).setIfInBounds s I.init; out := out.push "ok"
+          | .ok p => regs := (regs.setIfInBounds d p.1).setIfInBounds s p.2; out := out.push "ok"
           | .panic => dead := true; out := out.push "panic"
           | .diverge => dead := true; out := out.push "hang"
       | _, _ => out := out.push "bad-op"
